@@ -16,7 +16,7 @@ RULE = ("1..3 hosts on a simulated UDP network, each with source IPv4 address, 4
         "only a datagram that arrives on their port, carries a valid signature, decrypts and equals the well-known probe. "
         "Oracle: Discover.discover(auto_connect=False) / discover_single return exactly one object per host with ip == source "
         "address and port, id, sn, name, type, version as encoded; AirConditioner iff tt == 0xAC else Device. All 256 type bytes "
-        "x both versions exhaustively (thorough). Non-trivial: id >= 2^32 or port != 6444 or tt != ac or reported IP != source "
+        "x both versions exhaustively. Non-trivial: id >= 2^32 or port != 6444 or tt != ac or reported IP != source "
         "or V3. Distinct by host tuple.")
 ASSUMPTIONS = ["body layout: reversed IPv4, 4-byte LE port, 32-byte serial, name length, name, trailing bytes (from captures)"]
 
@@ -113,14 +113,12 @@ def run(ctx) -> None:
             n += 1
             if not ctx.mine(n):
                 continue
-            if ctx.quick and tt % 8 and tt not in (0xAC, 0xAD, 0xAB, 0xA1, 0xCA, 0x0A, 0xFF, 0x00):
-                continue
             h = {"ip": f"10.1.{tt}.{version}", "id": (tt << 40) | 0x0102030405, "port": 6444 + tt, "sn": f"{tt:032d}", "tt": tt, "suffix": "F7B4",
                  "upper": bool(tt & 1), "version": version, "listen_port": [6445, 20086][tt % 2], "src_port": [6445, 20086][(tt // 2) % 2],
                  "delay": 0.05, "extra": bytes(20).hex()}
             case = {"hosts": [h], "single": tt % 5 == 0}
             ctx.check(case, lambda c: _run_one(ctx, c))
-    ctx.sweep("all 256 type bytes x both versions", n, not ctx.quick)
+    ctx.sweep("all 256 type bytes x both versions", n, True)
     cases = st.one_of(
         st.tuples(host_strategy(1)).map(lambda t: {"hosts": list(t)}),
         st.tuples(host_strategy(1), st.booleans()).map(lambda t: {"hosts": [t[0]], "single": t[1]}),
